@@ -176,17 +176,42 @@ def parse_terse(output):
     return info
 
 
+# A Kani session holds every harness result in the driver process, which runs under the same
+# address-space cap as its cbmc children: 614 harnesses in one session exhausted 16 GB of address
+# space in kani-driver itself ("memory allocation failed", all results lost). Sessions of up to 260
+# harnesses are measured to be fine, so larger units are run in chunks.
+SESSION_MAX = int(os.environ.get("VERIF_SESSION_MAX", "200"))
+
+
 def run_unit(unit, pid, tier, jobs, timeout_s, only=None):
-    """Run all harnesses of one unit. Returns dict harness -> result."""
-    t0 = time.time()
+    """Run all harnesses of one unit (in sessions of at most SESSION_MAX). Returns dict harness -> result."""
     names = tier_select(discover(unit, pid), tier)
     if only:
         names = [n for n in names if only in n]
     if not names:
         return {}, {"unit": unit["name"], "error": "no harnesses discovered"}
+    results, meta = {}, None
+    for part, i in enumerate(range(0, len(names), SESSION_MAX)):
+        r, m = _run_names(unit, pid, tier, jobs, timeout_s, names[i:i + SESSION_MAX], part)
+        results.update(r)
+        if meta is None:
+            meta = m
+        else:
+            meta["cmd"] += " ; " + m["cmd"]
+            meta["wall_s"] = round(meta["wall_s"] + m["wall_s"], 1)
+            meta["rc"] = max(meta["rc"], m["rc"])
+            for k in ("error", "tail"):
+                if k in m and k not in meta:
+                    meta[k] = m[k]
+    return results, meta
+
+
+def _run_names(unit, pid, tier, jobs, timeout_s, names, part):
+    t0 = time.time()
     d = crate_dir(unit)
     fq = full_names(unit, names)
-    out_json = os.path.join(WORK, "kani-%s-%s.json" % (unit["name"], pid))
+    sfx = "" if part == 0 else ".%d" % part
+    out_json = os.path.join(WORK, "kani-%s-%s%s.json" % (unit["name"], pid, sfx))
     if os.path.exists(out_json):
         os.remove(out_json)
     cmd = kani_cmd(unit, fq, jobs, timeout_s, out_json)
@@ -194,7 +219,7 @@ def run_unit(unit, pid, tier, jobs, timeout_s, only=None):
     # address-space cap per process (inherited by every cbmc): a query that wants more is reported as
     # inconclusive instead of taking the machine down (16 harnesses run in parallel on 62 GB)
     rc, out, secs = sh(cmd, cwd=d, timeout=wall_cap, mem_gb=float(os.environ.get("VERIF_MEM_GB", "16")))
-    logf = os.path.join(WORK, "kani-%s-%s.log" % (unit["name"], pid))
+    logf = os.path.join(WORK, "kani-%s-%s%s.log" % (unit["name"], pid, sfx))
     with open(logf, "w") as fh:
         fh.write(" ".join(cmd) + "\n" + out)
     results = {}
